@@ -69,7 +69,7 @@ theorem immutable_any_k_blocks_decode (fec : Nat → Nat → Code) (fileSize k n
         tailSegmentPadded := nextMultiple (tailSizeOf fileSize segSize) k,
         numSegments := divCeil fileSize segSize, blockSize := segSize / k,
         tailBlockSize := nextMultiple (tailSizeOf fileSize segSize) k / k } := by
-    simp [calculateSizes, hk0, hs0]
+    simp [calculateSizes, hk0, hs0, hdiv]
   have hchopU : Uniform ps (chop k ps P) := uniform_chop _ _ _
   have hany : ((chop k ps P).any fun c => c.length != ps) = false := by
     simp only [List.any_eq_false, bne_iff_ne, ne_eq, Decidable.not_not]; exact hchopU
@@ -245,6 +245,13 @@ theorem rs256_any_k_blocks_decode (h : RS256_MDS) (k n : Nat) (hk : 1 ≤ k) (hk
     (hgen : ∀ p ∈ supplied, (encodeSegment (rs256 k n) k seg)[p.1]? = some p.2) :
     decodeSegment (rs256 k n) k seg.length supplied = seg :=
   any_k_blocks_decode (rs256 k n) k n hk (h k n hk hkn hn) seg supplied hlen hnd hgen
+
+set_option maxRecDepth 100000 in
+/-- the transcription reproduces zfec's bytes: `zfec.Encoder(3,5).encode([b'a',b'b',b'c'])` is
+`[b'a', b'b', b'c', b'u', b'\t']`; and a 4-of-5 supply in scrambled order decodes -/
+example : encodeSegment (rs256 3 5) 3 [0x61, 0x62, 0x63] = [[0x61], [0x62], [0x63], [0x75], [0x09]] ∧
+    decodeSegment (rs256 3 5) 3 3 [(4, [0x09]), (0, [0x61]), (3, [0x75]), (1, [0x62])] = [0x61, 0x62, 0x63] := by
+  decide
 
 /-- the assumption is satisfiable by *some* code for the shapes proved: the instances -/
 theorem mds_instances :
